@@ -323,6 +323,9 @@ func c05MultiDocSites(ctx *Ctx) (sites []c05Site, notes []string, err error) {
 }
 
 func genC05(ctx *Ctx) error {
+	if err := genStyleDefaults(ctx); err != nil {
+		return err
+	}
 	defaults, sites, _, err := c05Tables(ctx)
 	if err != nil {
 		return err
